@@ -377,7 +377,8 @@ def replay_failure(fe, res, f, outdir):
     elif kind == 'ABORT' or kind == 'UNCAUGHT-EXCEPTION':
         tries = [('dbg' if dbgflav else 'rel', False), ('dbg', False)]
     elif kind == 'UNINIT-DECISION':
-        tries = [('vg', True)]
+        # undef data is either uninitialised memory (valgrind) or LLVM poison from an oversize shift (defined on x86, flagged by UBSan)
+        tries = [('vg', True), ('clang_ubsan_dbg' if dbgflav else 'clang_ubsan', False)]
     elif kind.startswith('UB-') or kind in ASAN_KINDS:
         tries = [('asan_dbg' if dbgflav else 'asan', False), ('asan_dbg', False),
                  ('clang_ubsan_dbg' if dbgflav else 'clang_ubsan', False)]
@@ -417,8 +418,10 @@ def replay_failure(fe, res, f, outdir):
             if 'UNCAUGHT' in out or rc in (-6, 134, 5):
                 return True, rp, detail
         elif kind == 'UNINIT-DECISION':
-            if rc == 9 or 'uninitialised' in err:
+            if vg and (rc == 9 or 'uninitialised' in err):
                 return True, rp, detail
+            if not vg and 'runtime error' in err and 'shift' in err:
+                return True, rp, detail + ' (poison: shift by the width or more)'
         elif kind.startswith('UB-') or kind in ASAN_KINDS:
             if rc not in (0, 3) and ('runtime error' in err or 'AddressSanitizer' in err or rc in (-11, -6, 134, 139, 1)):
                 return True, rp, detail
